@@ -112,9 +112,14 @@ func ExtractIndexNames(path string) ([]string, []string) {
 	indexValues := make([]string, 0)
 	jsonMatches := rOnIndex.FindAllStringSubmatch(path, -1)
 	for _, m := range jsonMatches {
-		idxName := m[1][1:strings.LastIndex(m[1], "=")]
+		eqIdx := strings.LastIndex(m[1], "=")
+		if eqIdx < 1 {
+			// not a key=value index (e.g. a bracketed element name): there is nothing to extract
+			continue
+		}
+		idxName := m[1][1:eqIdx]
 		indexNames = append(indexNames, idxName)
-		idxValue := m[1][strings.LastIndex(m[1], "=")+1 : len(m[1])-1]
+		idxValue := strings.TrimSuffix(m[1][eqIdx+1:], "]")
 		indexValues = append(indexValues, idxValue)
 	}
 	return indexNames, indexValues
@@ -135,6 +140,9 @@ func FindPathFromModel(path string, rwPaths ReadWritePathMap, exact bool) (bool,
 
 	if strings.HasSuffix(path, "]") { //Ends with index
 		indices, _ := ExtractIndexNames(path)
+		if len(indices) == 0 {
+			return false, nil, errors.NewInvalid("path %s ends with ']' but carries no index", path)
+		}
 		// Add on the last index
 		searchPathNoIndices = fmt.Sprintf("%s/%s", searchPathNoIndices, indices[len(indices)-1])
 	}
